@@ -129,7 +129,7 @@ def run(rep, tier, seed, keep=False):
             pairs = rng.sample(pairs, 2500)
         for (a, b, d) in pairs:
             add(lambda i, a=a, b=b, d=d: [stages(i)[a](), stages(i)[b](), demands(i)[d]()], 'depth2')
-        for _ in range(400 if quick else 6000):
+        for _ in range(400 if quick else 30000):
             k = rng.randint(3, 4)
             add(lambda i: [rng.choice(stages(i))() for _ in range(k)] + [rng.choice(demands(i))()], 'random')
         # validate
@@ -162,7 +162,7 @@ def run(rep, tier, seed, keep=False):
         rep.evaluations += len(events)
         rep.nontrivial = len(events) - len(skipped_ids)
         rep.extra['skipped_by_model'] = skipped
-        rep.extra['pipelines'] = {'depth<=1': nd * (ns + 1), 'depth2': len(pairs), 'random 3-4': 400 if quick else 6000}
+        rep.extra['pipelines'] = {'depth<=1': nd * (ns + 1), 'depth2': len(pairs), 'random 3-4': 400 if quick else 30000}
         rep.exhaustive = not quick
         for j in (5, 200, len(events) - 2):
             rep.sample({'text': desc[j][0], 'outcome': desc[j][1], 'pulls': desc[j][2], 'lambda_applications': desc[j][3]})
